@@ -68,3 +68,11 @@ Proof. exact tie_collector_new. Qed.
 Check C14_source_collector_new : forall v, g_collector_new v = Ok (v, []).
 Print Assumptions C14_source_collector_new.
 
+From Avt Require Import Proofs.C12Lines.
+(** Proofs/C12Lines.v (statement audit) *)
+(** sessions that mix char-at-a-time feed() (which hands out nothing) with feed_str() calls, cut differently on the two sides: the lines drained by the feed_str calls followed by the final lines() are exactly the lines of the unlimited run, for every limit *)
+Theorem C14_mixed_calls : forall c r L opsI opsL vI outsI vL outsL, no_resize opsI -> no_resize opsL -> feeds opsI = feeds opsL -> pris_free init_parser (feeds opsL) -> run_ops (vt_new c r None) opsI = Ok (vI, outsI) -> run_ops (vt_new c r L) opsL = Ok (vL, outsL) -> active (vterm vL) = Primary -> concat (map o_drained outsL) ++ lines (buf (vterm vL)) = lines (buf (vterm vI)).
+Proof. exact C14_ops. Qed.
+Check C14_mixed_calls : forall c r L opsI opsL vI outsI vL outsL, no_resize opsI -> no_resize opsL -> feeds opsI = feeds opsL -> pris_free init_parser (feeds opsL) -> run_ops (vt_new c r None) opsI = Ok (vI, outsI) -> run_ops (vt_new c r L) opsL = Ok (vL, outsL) -> active (vterm vL) = Primary -> concat (map o_drained outsL) ++ lines (buf (vterm vL)) = lines (buf (vterm vI)).
+Print Assumptions C14_mixed_calls.
+
